@@ -326,11 +326,12 @@ Fixpoint drain_steps (n : nat) (c : cursor) (acc : list N) : MV (list N * cursor
 Definition dbg_range (alt : bool) (c : cursor) : MV (list N) :=
   fun w => Ok (r_str (debug_pairs dk dv alt (range_list (self w) c))) w.
 
-Definition drain_session (take : nat) (fate : N) : MV (list N) :=
+(* [with_dbg]: Drain implements Debug, SetDrain does not *)
+Definition drain_session (with_dbg : bool) (take : nat) (fate : N) : MV (list N) :=
   c <- drain ;;
   '(acc, c') <- drain_steps take c [] ;;
-  d0 <- dbg_range false c' ;;
-  d1 <- dbg_range true c' ;;
+  d0 <- (if with_dbg then dbg_range false c' else ret []) ;;
+  d1 <- (if with_dbg then dbg_range true c' else ret []) ;;
   (if N.eqb fate 0 then drain_drop E c' else ret tt) ;;
   ret (acc ++ [nn (cursor_len c')] ++ d0 ++ d1).
 End DrainSession.
@@ -508,25 +509,32 @@ Definition replace_with {V} (E : env key V query cstate) (build : M key V cstate
   '(_, _) <- swap_self old (drop_map E) ;;
   ret body.
 
-(* --- serde: entries get fresh identities when decoded (key first) --- *)
-Fixpoint fresh_pairs (l : list (key * vobj)) (id : N) : list (key * vobj) * N :=
-  match l with
-  | [] => ([], id)
-  | (k, v) :: t =>
-      let '(t', id') := fresh_pairs t (id + 2) in
-      (({| kid := id; kcls := kcls k |}, {| vid := id + 1; vdat := vdat v |}) :: t', id')
-  end.
-Fixpoint fresh_keys (l : list key) (id : N) : list key * N :=
-  match l with
-  | [] => ([], id)
-  | k :: t => let '(t', id') := fresh_keys t (id + 1) in
-              ({| kid := id; kcls := kcls k |} :: t', id')
-  end.
+(* --- serde: src/serialization.rs, src/set/serialization.rs.  The visitor
+   pulls one entry at a time (decoding it creates fresh objects: key first,
+   then value) and inserts it into a local container. --- *)
 Definition bump_id {V} (n : N) : M key V cstate unit :=
   fun w => Ok tt {| cb := {| n_eq := n_eq (cb w); n_clone := n_clone (cb w);
                              n_call := n_call (cb w); next_id := n |};
                     log := log w; self := self w |}.
 Definition get_next_id {V} : M key V cstate N := fun w => Ok (next_id (cb w)) w.
+
+Fixpoint visit_map (items : list (key * vobj)) : Mm unit :=
+  match items with
+  | [] => ret tt
+  | (k, v) :: rest =>
+      id <- get_next_id ;; bump_id (id + 2) ;;
+      old <- insert Em debug {| kid := id; kcls := kcls k |} {| vid := id + 1; vdat := vdat v |} ;;
+      drop_opt_val Em old ;;
+      visit_map rest
+  end.
+Fixpoint visit_seq (items : list key) : Ms unit :=
+  match items with
+  | [] => ret tt
+  | k :: rest =>
+      id <- get_next_id ;; bump_id (id + 1) ;;
+      _ <- s_insert Es debug {| kid := id; kcls := kcls k |} ;;
+      visit_seq rest
+  end.
 
 (* --- set algebra sessions --- *)
 Definition r_side (a b : map key unit) (x : bool * nat) : Ms (list N) :=
@@ -610,23 +618,33 @@ Definition alg_session (kind : N) (a b : map key unit) (steps : nat) (mode : N) 
   dbg <- alg_fold kind a b st' ;;     (* Debug iterates a clone: callbacks run *)
   rest <- alg_fold kind a b st' ;;    (* then the rest is consumed *)
   rr <- r_sides a b rest ;;
-  ret (acc ++ [nn lo; nn hi] ++ alg_debug a b dbg false ++ [nn (length rest)] ++ rr).
+  ret (acc ++ [nn lo; nn hi] ++ alg_debug a b dbg false ++ [nn (length rest)] ++
+       (if N.leb 3 mode then [] else rr)).
+
+Fixpoint rest_slots_s (n lo : nat) : Ms (list N) :=
+  match n with
+  | 0 => ret []
+  | S n' => _ <- p_ref lo ;; r <- rest_slots_s n' (S lo) ;; ret (nn lo :: r)
+  end.
+
+Fixpoint set_iter_steps (n : nat) (c : cursor) (acc : list N) : Ms (list N * cursor) :=
+  match n with
+  | 0 => ret (acc, c)
+  | S n' =>
+      let l := nn (cursor_len c) in
+      '(o, c') <- iter_next c ;;
+      match o with
+      | None => set_iter_steps n' c' (acc ++ [l; l; l; 0%N])
+      | Some i => p <- p_ref i ;;
+                  set_iter_steps n' c' (acc ++ [l; l; l; 1%N; nn i] ++ r_key (fst p))
+      end
+  end.
 
 Definition set_iter_session (steps : nat) : Ms (list N) :=
   c <- iter ;;
-  (fix go (n : nat) (c : cursor) (acc : list N) : Ms (list N) :=
-     match n with
-     | 0 =>
-         fun w => let l := List.map fst (range_list (self w) c) in
-                  Ok (acc ++ r_str (debug_keys dbg_key false l) ++ [nn (cursor_len c)]) w
-     | S n' =>
-         let l := nn (cursor_len c) in
-         '(o, c') <- iter_next c ;;
-         match o with
-         | None => go n' c' (acc ++ [l; l; l; 0%N])
-         | Some i => p <- p_ref i ;; go n' c' (acc ++ [l; l; l; 1%N; nn i] ++ r_key (fst p))
-         end
-     end) steps c [].
+  '(acc, c') <- set_iter_steps steps c [] ;;
+  rest <- rest_slots_s (cursor_len c') (fst c') ;;
+  ret (acc ++ [nn (length rest)] ++ rest ++ [nn (cursor_len c')]).
 
 Fixpoint set_into_steps (n : nat) (acc : list N) : Ms (list N) :=
   match n with
@@ -665,7 +683,7 @@ Definition step (o : op) (x : xworld) : list N * xworld :=
   | ORemoveEntry r q => run_m r (o <- remove_entry Em debug q ;; ret (r_optp o)) x
   | ORetain r dflt tab => run_m r (retain Em debug (pred_m sc dflt tab) ;; ret []) x
   | OClear r => run_m r (clear Em ;; ret []) x
-  | ODrain r take fate => run_m r (drain_session Em r_pair dbg_key dbg_val take fate) x
+  | ODrain r take fate => run_m r (drain_session Em r_pair dbg_key dbg_val true take fate) x
   | OWithCapacity r c =>
       run_m r (n <- get_cap ;;
                if with_capacity_ok c n then replace_with Em (ret tt) [] else panic) x
@@ -685,10 +703,7 @@ Definition step (o : op) (x : xworld) : list N * xworld :=
   | OFormat r style => run_m r (format_m style) x
   | OSerde r r' =>
       let src := get_m r x in
-      run_m r' (id <- get_next_id ;;
-                let '(items, id') := fresh_pairs (elems src) id in
-                bump_id id' ;;
-                replace_with Em (from_iter Em debug nx_none items)
+      run_m r' (replace_with Em (finally_drop Em (visit_map (elems src)))
                              [nn (len src); nn (length (elems src))]) x
   | SInsert r k => run_s r (b <- s_insert Es debug k ;; ret (r_bool b)) x
   | SReplace r k => run_s r (o <- s_replace Es debug k ;; ret (r_optk o)) x
@@ -699,7 +714,7 @@ Definition step (o : op) (x : xworld) : list N * xworld :=
   | SRetain r dflt tab => run_s r (s_retain Es debug (pred_s sc dflt tab) ;; ret []) x
   | SClear r => run_s r (s_clear Es ;; ret []) x
   | SDrain r take fate =>
-      run_s r (drain_session Es r_spair dbg_key (fun _ => [40%N; 41%N]) take fate) x
+      run_s r (drain_session Es r_spair dbg_key (fun _ => [40%N; 41%N]) false take fate) x
   | SExtend r items => run_s r (s_extend Es debug (nx_cb sc) items ;; ret []) x
   | SIter r steps => run_s r (set_iter_session steps) x
   | SIntoIter r take fate =>
@@ -732,21 +747,23 @@ Definition step (o : op) (x : xworld) : list N * xworld :=
   | SFormat r style => run_s r (format_s style) x
   | SSerde r r' =>
       let src := get_s r x in
-      run_s r' (id <- get_next_id ;;
-                let '(items, id') := fresh_keys (List.map fst (elems src)) id in
-                bump_id id' ;;
-                replace_with Es (s_from_iter Es debug nx_none items)
+      run_s r' (replace_with Es (finally_drop Es (visit_seq (List.map fst (elems src))))
                              [nn (len src); nn (length (elems src))]) x
   | OBad => ([9%N], x)
   end.
 
-(* final teardown: every register is dropped, in order *)
+(* final teardown: every register is dropped, in order; the register is left
+   holding a fresh empty container *)
+Definition drop_reg {V} (E : env key V query cstate) : M key V cstate (list N) :=
+  c <- get_cap ;; old <- get_self ;; put_self (new_map c) ;;
+  '(_, _) <- swap_self old (drop_map E) ;; ret [].
+
 Definition teardown (x : xworld) : list N * xworld :=
   if xdead x then ([3%N], x) else
-  let '(o0, x) := run_m 0 (drop_map Em ;; set_len 0 ;; ret []) x in
-  let '(o1, x) := run_m 1 (drop_map Em ;; set_len 0 ;; ret []) x in
-  let '(o2, x) := run_s 2 (drop_map Es ;; set_len 0 ;; ret []) x in
-  let '(o3, x) := run_s 3 (drop_map Es ;; set_len 0 ;; ret []) x in
+  let '(o0, x) := run_m 0 (drop_reg Em) x in
+  let '(o1, x) := run_m 1 (drop_reg Em) x in
+  let '(o2, x) := run_s 2 (drop_reg Es) x in
+  let '(o3, x) := run_s 3 (drop_reg Es) x in
   (o0 ++ o1 ++ o2 ++ o3 ++
    [8890%N; n_eq (xcb x); n_clone (xcb x); n_call (xcb x); next_id (xcb x)], x).
 
